@@ -90,55 +90,55 @@ pub fn f2_step<const M: usize, const TOTAL: usize, const OP: u8, const CUT: bool
 
         let s1 = snap(c.footer);
         let ptr_new = c.cur_ptr() as usize;
-        assert!(s0 == s1, "[C01,C08,C12] footer fields other than the finger changed");
-        assert!(NDEALLOC == 0, "[C03] a &self operation gave memory back");
-        assert!(empty_is_pristine(), "[C20] shared static sentinel modified");
+        vassert!(s0 == s1, "NEVER: [C01,C08,C12] footer fields other than the finger changed");
+        vassert!(NDEALLOC == 0, "NEVER: [C03] a &self operation gave memory back");
+        vassert!(empty_is_pristine(), "NEVER: [C20] shared static sentinel modified");
         // RI: finger inside the chunk, M-aligned
-        assert!(ptr_new >= data && ptr_new <= foot, "[C01] finger left the chunk");
-        assert!(ptr_new & (M - 1) == 0, "[C04] finger lost the minimum alignment");
+        vassert!(ptr_new >= data && ptr_new <= foot, "NEVER: [C01] finger left the chunk");
+        vassert!(ptr_new & (M - 1) == 0, "NEVER: [C04] finger lost the minimum alignment");
         // the representative other live block is still in the allocated region
-        assert!(ptr_new <= q, "[C01,C12] finger raised past another live block (it would be handed out again)");
+        vassert!(ptr_new <= q, "NEVER: [C01,C12] finger raised past another live block (it would be handed out again)");
 
         if OP == OP_DEALLOC {
-            assert!(ptr_new >= ptr_old, "[C12] deallocate lowered the finger");
+            vassert!(ptr_new >= ptr_old, "NEVER: [C12] deallocate lowered the finger");
             if !is_last {
-                assert!(ptr_new == ptr_old, "[C12] deallocating a non-last block changed the arena");
+                vassert!(ptr_new == ptr_old, "NEVER: [C12] deallocating a non-last block changed the arena");
             }
-            assert!(COPY_CALLS == 0, "[C02] deallocate copied memory");
+            vassert!(COPY_CALLS == 0, "NEVER: [C02] deallocate copied memory");
             kani::cover!(is_last && ptr_new > ptr_old, "REACH: [dealloc] last block reclaimed");
             kani::cover!(M == 1 || (is_last && n_old > 0 && ptr_new > s + n_old), "REACH: [dealloc] reclaim rounded up to MIN_ALIGN past the block end");
             kani::cover!(!is_last, "REACH: [dealloc] non-last block");
         } else if failed {
-            assert!(ptr_new == ptr_old, "[C09,C12] finger moved although the operation failed");
-            assert!(COPY_CALLS == 0, "[C12] memory copied although the operation failed");
+            vassert!(ptr_new == ptr_old, "NEVER: [C09,C12] finger moved although the operation failed");
+            vassert!(COPY_CALLS == 0, "NEVER: [C12] memory copied although the operation failed");
             kani::cover!(true, "REACH: [fail] operation failed");
         } else if let Some((p, len, n_new, a_new)) = res {
-            assert!(p != 0, "[C01] null pointer returned");
-            assert!(len >= n_new, "[C12] returned slice shorter than requested");
-            assert!(p & (a_new - 1) == 0, "[C04,C12] new alignment not honoured");
-            assert!(p & (M - 1) == 0, "[C04] minimum alignment not honoured");
+            vassert!(p != 0, "NEVER: [C01] null pointer returned");
+            vassert!(len >= n_new, "NEVER: [C12] returned slice shorter than requested");
+            vassert!(p & (a_new - 1) == 0, "NEVER: [C04,C12] new alignment not honoured");
+            vassert!(p & (M - 1) == 0, "NEVER: [C04] minimum alignment not honoured");
             // the new block lies in (former free region) ∪ Bk, inside the chunk, in the allocated region
-            assert!(p >= data && p + len <= foot, "[C01] new block outside the chunk / over the footer");
-            assert!(ptr_new <= p, "[C01] new block below the finger (would be handed out again)");
-            assert!(p + len <= q || q + qn <= p, "[C01,C12] new block overlaps another live block");
+            vassert!(p >= data && p + len <= foot, "NEVER: [C01] new block outside the chunk / over the footer");
+            vassert!(ptr_new <= p, "NEVER: [C01] new block below the finger (would be handed out again)");
+            vassert!(p + len <= q || q + qn <= p, "NEVER: [C01,C12] new block overlaps another live block");
             if p < ptr_old {
                 // uses former free space: must end at or below the old finger, or be the in-place extension of Bk
-                assert!(p + len <= ptr_old || (is_last && p + len <= s + n_old),
-                        "[C01,C12] new block reaches past the former free region into memory it does not own");
+                vassert!(p + len <= ptr_old || (is_last && p + len <= s + n_old),
+                        "NEVER: [C01,C12] new block reaches past the former free region into memory it does not own");
             } else {
-                assert!(p >= s && p + len <= s + n_old || (n_new == 0), "[C01,C12] new block outside the old block");
+                vassert!(p >= s && p + len <= s + n_old || (n_new == 0), "NEVER: [C01,C12] new block outside the old block");
             }
             // contents: the first min(old,new) bytes are where the caller expects them
             let keep = if n_old < n_new { n_old } else { n_new };
             if p != s && keep > 0 {
-                assert!(COPY_CALLS == 1, "[C02,C12] block moved without exactly one copy");
-                assert!(COPY_SRC == s && COPY_DST == p, "[C02,C12] copy does not go from the old block to the new block");
-                assert!(COPY_LEN >= keep, "[C02,C12] fewer than min(old,new) bytes copied");
-                assert!(COPY_LEN <= n_old, "[C02] copy reads past the old block");
-                assert!(COPY_LEN <= len, "[C02,C12] copy writes past the new block");
+                vassert!(COPY_CALLS == 1, "NEVER: [C02,C12] block moved without exactly one copy");
+                vassert!(COPY_SRC == s && COPY_DST == p, "NEVER: [C02,C12] copy does not go from the old block to the new block");
+                vassert!(COPY_LEN >= keep, "NEVER: [C02,C12] fewer than min(old,new) bytes copied");
+                vassert!(COPY_LEN <= n_old, "NEVER: [C02] copy reads past the old block");
+                vassert!(COPY_LEN <= len, "NEVER: [C02,C12] copy writes past the new block");
             }
             if p == s {
-                assert!(COPY_CALLS == 0 || COPY_LEN == 0 || (COPY_SRC == s && COPY_DST == s), "[C02] block stayed but memory was copied elsewhere");
+                vassert!(COPY_CALLS == 0 || COPY_LEN == 0 || (COPY_SRC == s && COPY_DST == s), "NEVER: [C02] block stayed but memory was copied elsewhere");
             }
             kani::cover!(p == s, "REACH: [realloc] returned in place");
             kani::cover!(p != s && p < ptr_old, "REACH: [realloc] moved into former free space");
